@@ -116,6 +116,27 @@ partial def zeroExt : Sp → Bool
   | .compound _ cs => cs.isEmpty || cs.any zeroExt
   | _ => false
 
+/-- rename the first node (pre-order) carrying the name -/
+partial def renameSp (old new : Nat) : Sp → Sp × Bool
+  | .real nm n => if nm = old then (.real new n, true) else (.real nm n, false)
+  | .so2 nm => if nm = old then (.so2 new, true) else (.so2 nm, false)
+  | .so3 nm => if nm = old then (.so3 new, true) else (.so3 nm, false)
+  | .time nm => if nm = old then (.time new, true) else (.time nm, false)
+  | .discrete nm => if nm = old then (.discrete new, true) else (.discrete nm, false)
+  | .wrapper nm s =>
+    if nm = old then (.wrapper new s, true)
+    else let r := renameSp old new s; (.wrapper nm r.1, r.2)
+  | .compound nm cs =>
+    if nm = old then (.compound new cs, true)
+    else
+      let rec go : List Sp → List Sp × Bool
+        | [] => ([], false)
+        | c :: rest =>
+          let r := renameSp old new c
+          if r.2 then (r.1 :: rest, true) else let q := go rest; (c :: q.1, q.2)
+      let r := go cs
+      (.compound nm r.1, r.2)
+
 def isWrapper : Sp → Bool
   | .wrapper _ _ => true
   | _ => false
@@ -178,6 +199,15 @@ def step (s : S) (ts : List String) : S × String :=
       if isWrapper sp && zeroExt sp then bad
       else ({ s with spaces := insert s.spaces id sp }, spaceLine s.fixed sp)
     | _, _ => bad
+  | ["rename", id, old, new] =>
+    match id.toNat?, old.toNat?, new.toNat? with
+    | some id, some old, some new =>
+      match lookup s.spaces id with
+      | some sp =>
+        let r := renameSp old new sp
+        if r.2 then ({ s with spaces := insert s.spaces id r.1 }, spaceLine s.fixed r.1) else bad
+      | none => bad
+    | _, _, _ => bad
   | "state" :: sid :: spid :: rest =>
     match sid.toNat?, spid.toNat?, takeCounted rest with
     | some sid, some spid, some (xs, []) =>
@@ -222,6 +252,66 @@ def step (s : S) (ts : List String) : S × String :=
             let r := csd dS dst sS sst
             ({ s with states := insert s.states d (dsp, r.1) }, s!"ok res={r.2.code} atoms={atomsStr dS r.1}")
         | _, _ => bad
+      | _, _ => bad
+    | _, _ => bad
+  | ["sop", d, x, which] =>
+    -- ScopedState `dest << src` / `src >> dest`: copyStateData(destS, dest, srcS, src), result code dropped
+    match d.toNat?, x.toNat? with
+    | some d, some x =>
+      match lookup s.states d, lookup s.states x with
+      | some (dsp, dst), some (ssp, sst) =>
+        match lookup s.spaces dsp, lookup s.spaces ssp with
+        | some dS, some sS =>
+          if (!s.fixed && (hasWC dS || hasWC sS)) || !(which = "shl" || which = "shr") then bad
+          else
+            let r := csd dS dst sS sst
+            ({ s with states := insert s.states d (dsp, r.1) }, s!"ok atoms={atomsStr dS r.1}")
+        | _, _ => bad
+      | _, _ => bad
+    | _, _ => bad
+  | ["sreals", sid] =>
+    match sid.toNat? with
+    | some sid =>
+      match lookup s.states sid with
+      | some (spid, st) =>
+        match lookup s.spaces spid with
+        | some sp => (s, s!"reals={natsStr (scopedReals sp st)}")
+        | none => bad
+      | none => bad
+    | none => bad
+  | "sfrom" :: sid :: rest =>
+    match sid.toNat?, takeCounted rest with
+    | some sid, some (xs, []) =>
+      match lookup s.states sid, xs.mapM String.toNat? with
+      | some (spid, st), some rs =>
+        match lookup s.spaces spid with
+        | some sp =>
+          if rs.all (· < 18446744073709551616) then
+            let st' := scopedAssign sp st 0 rs
+            ({ s with states := insert s.states sid (spid, st') }, s!"ok atoms={atomsStr sp st'}")
+          else bad
+        | none => bad
+      | _, _ => bad
+    | _, _ => bad
+  | "ssm" :: spid :: _seed :: rest =>
+    -- GraphStateStorage (StateStorageWithMetadata<vector<size_t>>): states + one metadata vector per state
+    match spid.toNat?, takeCounted rest with
+    | some spid, some (xs, []) =>
+      match lookup s.spaces spid, xs.mapM String.toNat? with
+      | some sp, some sids =>
+        match sids.mapM (fun i => match lookup s.states i with
+            | some (p, st) => if p = spid then some (image sp st) else none
+            | none => none) with
+        | some imgs =>
+          if serLen sp = 0 then bad
+          else
+            let loaded := match loadStates (signature sp) (storeStates (signature sp) imgs) with
+              | .ok xs => xs
+              | .error _ => []
+            let md := (List.range loaded.length).map (fun i =>
+              joinOr "." ((List.range (i % 3)).map (fun j => toString ((i * 7 + j * 3) % 11))))
+            (s, s!"ok n={loaded.length} imgs={joinOr ";" (loaded.map hex)} md={joinOr ";" md}")
+        | none => bad
       | _, _ => bad
     | _, _ => bad
   | ["common", d, x] =>
@@ -279,8 +369,6 @@ def step (s : S) (ts : List String) : S × String :=
             | some (p, st) => if p = spid then some (image sp st) else none
             | none => none) with
         | some imgs =>
-          if serLen sp = 0 then bad
-          else
             let sig := signature sp
             let recs := storeStates sig imgs
             let loaded := match loadStates sig recs with
@@ -290,9 +378,9 @@ def step (s : S) (ts : List String) : S × String :=
               | .header h :: rest => Rec.header { h with marker := h.marker + 1 } :: rest
               | r => r
             let sigv := if signature sp2 = sig then "same" else verdict (loadStates (signature sp2) recs)
-            let rb := (List.range imgs.length).map (fun i => (readPrefix ((recs.take (i + 1)).drop 1)).length)
+            let rb := if serLen sp = 0 then [] else (List.range imgs.length).map (fun i => (readPrefix ((recs.take (i + 1)).drop 1)).length)
             (s, s!"ok n={loaded.length} imgs={joinOr ";" (loaded.map hex)} marker={verdict (loadStates sig flipped)} " ++
-                s!"sig={sigv} rb={natsStr rb}")
+                s!"sig={sigv} rb={natsStr rb} hist=ok")
         | none => bad
       | _, _, _ => bad
     | _, _, _ => bad
@@ -392,7 +480,7 @@ def step (s : S) (ts : List String) : S × String :=
         let sigv := if signature sp2 = sig then "same" else verdict (loadGraph m (signature sp2) csig recs)
         match loadGraph m sig csig recs with
         | .ok g' =>
-          (s, s!"ok=1 {dumpGraph g'} marker={verdict (loadGraph m sig csig flipped)} sig={sigv}")
+          (s, s!"ok=1 {dumpGraph g'} marker={verdict (loadGraph m sig csig flipped)} sig={sigv} restore=same")
         | .error _ => (s, "ok=0")
       | _, _ => bad
     | _, _ => bad
@@ -436,9 +524,11 @@ def step (s : S) (ts : List String) : S × String :=
 
 def init (ts : List String) : Option S :=
   match ts with
-  | ["copy"] => some {}
-  | ["copy", "wc=ub"] => some {}
-  | ["copy", "wc=fixed"] => some { fixed := true }
+  | "copy" :: opts =>
+    -- `wc=ub|fixed` selects the value-location variant; `names=spaced` only changes how the harness spells names
+    if opts.all (fun o => o = "wc=ub" || o = "wc=fixed" || o = "names=spaced") && opts.length ≤ 2 then
+      some { fixed := opts.contains "wc=fixed" }
+    else none
   | _ => none
 
 end OmplModel.Driver.CopyDrv
